@@ -141,8 +141,14 @@ class Translator:
             if fname in UNARY_SPECIAL and len(zargs) == 1:
                 self._special(fname, a[1], zargs[0], r)
             return r
-        if op in ('sum', 'bmax', 'bmin'):
+        if op in ('sum', 'bmax', 'bmin', 'bag'):
             return self._big(t)
+        if op == 'forall':
+            bv, lo, hi, body = a
+            self._nq = getattr(self, '_nq', 0) + 1
+            k = z3.Int('fa!%d' % self._nq)
+            zb = self.tr(tm.subst(body, {bv: _IntTerm(k, self)}))
+            return z3.ForAll([k], z3.Implies(z3.And(self.tr(lo) <= k, k < self.tr(hi)), zb))
         raise ValueError('cannot translate op %r' % op)
 
     # -- special functions: per-occurrence and pairwise axioms (assumption register A2)
@@ -231,6 +237,10 @@ class Translator:
         r = f(zlo, zhi, *zfv)
         if op == 'sum':
             self.axioms.append(z3.Implies(zhi <= zlo, r == 0))
+            if _nonneg(body):
+                self.axioms.append(r >= 0)      # a finite sum of non-negative terms
+        elif op == 'bag':
+            pass
         else:
             # witness and bound axioms; the quantified bound is instantiated by z3 (MBQI/e-matching)
             w = self.fn('wit_%s_%d' % (op, bid), dom, z3.IntSort())(zlo, zhi, *zfv)
@@ -251,6 +261,37 @@ class Translator:
 
 
 _int_terms = {}
+
+
+def _nonneg(b):
+    """syntactic sufficient condition for b >= 0"""
+    op = b.op
+    if op == 'const':
+        return b.sort != 'B' and b.args[0] >= 0
+    if op == 'abs':
+        return True
+    if op == 'pow':
+        e = b.args[1]
+        return (e.op == 'const' and e.sort == 'I' and e.args[0] % 2 == 0) or _nonneg(b.args[0])
+    if op == 'app':
+        return b.args[0] in ('exp', 'sqrt', 'npdf', 'ncdf')
+    if op in ('add', 'mul'):
+        if op == 'mul' and len(b.args) == 2 and b.args[0] is b.args[1]:
+            return True
+        return all(_nonneg(a) for a in b.args)
+    if op == 'max':
+        return _nonneg(b.args[0]) or _nonneg(b.args[1])
+    if op == 'min':
+        return _nonneg(b.args[0]) and _nonneg(b.args[1])
+    if op == 'ite':
+        return _nonneg(b.args[1]) and _nonneg(b.args[2])
+    if op == 'toreal':
+        return _nonneg(b.args[0])
+    if op == 'sum':
+        return _nonneg(b.args[3])
+    if op == 'div':
+        return _nonneg(b.args[0]) and _nonneg(b.args[1])
+    return False
 
 
 def _IntTerm(zexpr, tr):
